@@ -4,26 +4,43 @@ From Coquelicot Require Import Coquelicot.
 From NIR Require Import Gen.LifFormulas.
 Open Scope R_scope.
 
+(* canonical form: v_inf + (v - v_inf) e^{-t/tau}.  This is the ONLY lemma about `advance` that looks at the
+   translated term; it first brings every exponent to the form (- t / tau), so that algebraically equivalent
+   rewrites of the Python formula still prove. *)
+Ltac canon_exp t tau :=
+  repeat match goal with
+         | |- context [exp ?E] =>
+           lazymatch E with
+           | (- t / tau) => fail
+           | _ => replace E with (- t / tau) by (unfold Rdiv; first [ring | field])
+           end
+         end.
+
+Lemma advance_canonical tau r v_leak thr v i t :
+  advance tau r v_leak thr v i t = (v_leak + r * i) + (v - (v_leak + r * i)) * exp (- t / tau).
+Proof. unfold advance. canon_exp t tau. ring. Qed.
+
 Lemma advance_zero tau r v_leak thr v i : advance tau r v_leak thr v i 0 = v.
-Proof. unfold advance. replace (- 0 / tau) with 0 by (unfold Rdiv; ring). rewrite exp_0. ring. Qed.
+Proof.
+  rewrite advance_canonical. replace (- 0 / tau) with 0 by (unfold Rdiv; ring). rewrite exp_0. ring.
+Qed.
 
 Lemma exp_split a b tau : exp (- (a + b) / tau) = exp (- a / tau) * exp (- b / tau).
 Proof. rewrite <- exp_plus. f_equal. unfold Rdiv. ring. Qed.
 
 Lemma advance_semigroup tau r v_leak thr v i a b :
   advance tau r v_leak thr (advance tau r v_leak thr v i a) i b = advance tau r v_leak thr v i (a + b).
-Proof. unfold advance. rewrite exp_split. ring. Qed.
-
-(* canonical form: v_inf + (v - v_inf) e^{-t/tau} *)
-Lemma advance_canonical tau r v_leak thr v i t :
-  advance tau r v_leak thr v i t = (v_leak + r * i) + (v - (v_leak + r * i)) * exp (- t / tau).
-Proof. unfold advance. ring. Qed.
+Proof. rewrite !advance_canonical. rewrite exp_split. ring. Qed.
 
 Lemma advance_ode tau r v_leak thr v i t : tau <> 0 ->
   is_derive (fun t => advance tau r v_leak thr v i t) t
             (((v_leak - advance tau r v_leak thr v i t) + r * i) / tau).
 Proof.
-  intros Ht. unfold advance. auto_derive; [exact I|]. unfold Rdiv. generalize (exp (- t * / tau)). intros E. field. exact Ht.
+  intros Ht.
+  apply (is_derive_ext (fun t => (v_leak + r * i) + (v - (v_leak + r * i)) * exp (- t / tau))).
+  { intros x. symmetry. apply advance_canonical. }
+  rewrite advance_canonical.
+  auto_derive; [exact I|]. unfold Rdiv. generalize (exp (- t * / tau)). intros E. field. exact Ht.
 Qed.
 
 Section Spike.
